@@ -61,7 +61,17 @@ impl Gen {
         // traversal or an assembler that merges / skips a repeated instruction is seen); the comparison by id sequence
         // still decides order and count
         let k = if self.next % 5 == 0 { self.next - 1 } else { self.next };
-        dr::Instruction::new(ops[if k < 200 { (k as usize * 7 + 3) % 12 } else { k as usize % ops.len() }], None, Some(k), vec![dr::Operand::LiteralBit32(k ^ 0x5555)])
+        dr::Instruction::new(ops[if k < 200 { (k as usize * 7 + 3) % 12 } else { k as usize % ops.len() }], None, Some(k), vec![dr::Operand::LiteralBit32(Self::payload(k))])
+    }
+    /// operand word of instruction k: every fourth one is a word that means something else in a binary (the first
+    /// word of OpFunctionEnd / OpReturn / OpLabel / OpFunction, the magic number, 0, 2^32-1)
+    fn payload(k: u32) -> u32 {
+        const MEANINGFUL: [u32; 8] = [(1 << 16) | 56, (1 << 16) | 253, (2 << 16) | 248, (5 << 16) | 54, 0x0723_0203, 0, u32::MAX, (1 << 16) | 252];
+        if k % 4 == 1 {
+            MEANINGFUL[(k as usize / 4) % 8]
+        } else {
+            k ^ 0x5555
+        }
     }
     fn list(&mut self, n: usize) -> Vec<dr::Instruction> {
         (0..n).map(|_| self.inst()).collect()
@@ -264,6 +274,13 @@ fn check_module(make: &dyn Fn() -> dr::Module, label: &str, rep: serde_json::Val
             want.extend(i.assemble());
         }
         let asm = m.assemble();
+        // second use: the same module assembles to the same words again, also into a vector that is not empty
+        let again = m.assemble();
+        let mut appended = vec![0xAAAA_AAAA, 0xBBBB_BBBB];
+        m.assemble_into(&mut appended);
+        if again != asm || appended[..2] != [0xAAAA_AAAA, 0xBBBB_BBBB] || appended[2..] != asm[..] {
+            bad.push(("assemble".into(), "a second assemble() / assemble_into() on a non-empty vector differs from the first assemble()".into()));
+        }
         if asm != want {
             bad.push(("assemble".into(), format!("module.assemble() has {} words, header ++ concatenation of the visited instructions has {}", asm.len(), want.len())));
         }
